@@ -53,10 +53,22 @@ void splinetable<Alloc>::fit(const ::ndsparse& data,
 		                       +") does not equal dimension of input data ("
 		                       +std::to_string(data.ndim)+")");
 	for(uint32_t i=0; i<data.ndim; i++){
+		if(coords[i].size()<data.ranges[i])
+			throw std::logic_error("Coordinate vector for dimension "
+			                       +std::to_string(i)+" has "
+			                       +std::to_string(coords[i].size())
+			                       +" entries, fewer than the range of coordinate indices ("
+			                       +std::to_string(data.ranges[i])+")");
 		if(!std::is_sorted(knots[i].begin(),knots[i].end()))
 			throw std::logic_error("Knot vector for dimension "
 			                       +std::to_string(i)+
 			                       " is not in sorted order");
+		if(knots[i].size()<2*uint64_t(splineOrder[i])+2)
+			throw std::logic_error("Knot vector for dimension "
+			                       +std::to_string(i)+" has "
+			                       +std::to_string(knots[i].size())
+			                       +" entries, too few for a spline of order "
+			                       +std::to_string(splineOrder[i]));
 	}
 	if(smoothing.size()!=data.ndim && smoothing.size()!=1)
 		throw std::logic_error("Number of smoothing strengths specified ("
@@ -68,6 +80,14 @@ void splinetable<Alloc>::fit(const ::ndsparse& data,
 		                       +std::to_string(penaltyOrder.size())
 		                       +") should be 1 or the number of spline dimensions ("
 		                       +std::to_string(data.ndim)+")");
+	for(uint32_t i=0; i<data.ndim; i++){
+		uint32_t porder=(penaltyOrder.size()>1?penaltyOrder[i]:penaltyOrder[0]);
+		if(porder>splineOrder[i])
+			throw std::logic_error("Penalty order ("+std::to_string(porder)
+			                       +") for dimension "+std::to_string(i)
+			                       +" exceeds the spline order ("
+			                       +std::to_string(splineOrder[i])+")");
+	}
 	if(monodim!=no_monodim && monodim>=data.ndim)
 		throw std::logic_error("Requested monotonic dimension ("
 		                       +std::to_string(monodim)
